@@ -31,6 +31,19 @@ type RunResult struct {
 	Pairs      map[string]int `json:"-"`
 	Log        []string       `json:"-"`
 	Brief      string         `json:"brief,omitempty"`
+	Dry        *DryInfo       `json:"-"`
+}
+
+// DryInfo is what a fault-free dry run measured; fault positions are drawn from it.
+type DryInfo struct {
+	N        int     // storage callbacks
+	Kinds    []uint8 // kind per callback
+	Steps    int     // scheduling steps of the whole dry run
+	Start    int     // step at which Exec started
+	End      int     // step at which Exec returned
+	FirstCB  int
+	Fallback bool
+	Failed   bool
 }
 
 // X is the context handed to a scenario body.
@@ -352,3 +365,7 @@ func firstFrame(s string) string {
 func pickStrategy(r *rand.Rand) string {
 	return []string{"first", "random", "random", "rtb", "rtb", "pct", "pct", "starve:conc.drain", "starve:conc.pull", "starve:worker", "starve:coal"}[r.Intn(11)]
 }
+
+var reNumAny = regexp.MustCompile(`[0-9]+`)
+
+func sortStrings(l []string) { sort.Strings(l) }
